@@ -105,7 +105,7 @@ def gen_tree(rng, depth, counter, rtl):
         if r < 0.5:
             return '0'
         u = rng.choice(['px', 'px', '%', 'em'] if pct else ['px', 'em'])
-        v = rng.choice([1, 2, 3, 5, 10, 20, 30]) if u != '%' else rng.choice([5, 10, 25, 50, 80, 120])
+        v = rng.choice([1, 2, 3, 5, 10, 20, 30]) if u != '%' else rng.choice([5, 10, 25, 50, 80, 120, 0])
         if allow_neg and rng.random() < 0.15:
             v = -v
         return '%d%s' % (v, u)
@@ -124,11 +124,11 @@ def gen_tree(rng, depth, counter, rtl):
     if rng.random() < 0.2:
         st.append('max-width:%s' % L(False))
     if rng.random() < 0.2:
-        st.append('height:%s' % L(pct=False))
+        st.append('height:%s' % L())
     if rng.random() < 0.1:
-        st.append('min-height:%s' % L(False, pct=False))
+        st.append('min-height:%s' % L(False))
     if rng.random() < 0.1:
-        st.append('max-height:%s' % L(False, pct=False))
+        st.append('max-height:%s' % L(False))
     if rng.random() < 0.25:
         st.append('box-sizing:%s' % rng.choice(['border-box', 'content-box', 'padding-box']))
     if rng.random() < 0.1:
@@ -215,6 +215,42 @@ def judge_geometry(recs):
         if r['ml'] >= 0 and r['mr'] >= 0 and bbw <= cbw + EPS and not over:
             if bbx < cbx - EPS or bbx + bbw > cbx + cbw + EPS:
                 bad.append(('inside-parent-horizontally', r['eid'], (bbx, bbw, cbx, cbw)))
+    # heights (CSS 2.1 10.5, 10.6.3, 10.7): a box in normal flow that holds only line boxes and whose
+    # height is auto - or a percentage of a containing block whose height is itself auto - is as high as its lines;
+    # under such a containing block a percentage min-height is 0 and a percentage max-height is none
+    def decl(r, name):
+        v = None
+        for d in (r.get('sty') or '').split(';'):
+            k, _, val = d.partition(':')
+            if k.strip() == name:
+                v = val.strip()
+        return v
+
+    def eff_auto(r):
+        h = decl(r, 'height')
+        if r.get('sty') is None or h in (None, 'auto'):
+            return True
+        if h.endswith('%'):
+            p = byidx.get((r['page'], r['parent'])) if r['parent'] is not None else None
+            return p is not None and p['parent'] is not None and eff_auto(p)
+        return False
+    for r in recs:
+        # (boxes without any line are left out: their used height is entangled with margins collapsing through them)
+        if (r.get('sty') is None or not r['normal'] or r['nkids'] or not r['nlines'] or not isnum(r['h'])
+                or r['parent'] is None):
+            continue
+        p = byidx.get((r['page'], r['parent']))
+        if p is None or p['parent'] is None or not eff_auto(r):
+            continue
+        mn, mx = decl(r, 'min-height'), decl(r, 'max-height')
+        cb_auto = eff_auto(p)
+        if not (mn in (None, '0', 'auto') or (mn.endswith('%') and cb_auto)):
+            continue
+        if not (mx in (None, 'none') or (mx.endswith('%') and cb_auto)):
+            continue
+        if abs(r['h'] - 10 * r['nlines']) > EPS:
+            bad.append(('auto-height-is-content-height', r['eid'],
+                        (r['h'], 10 * r['nlines'], decl(r, 'height'), mn, mx)))
     # vertical stacking without overlap when all vertical margins are non-negative
     any_negative = any(isnum(r[k]) and r[k] < 0 for r in recs for k in ('mt', 'mb'))
     for key, ch in ([] if any_negative else kids.items()):
